@@ -350,15 +350,12 @@ def rule_ctl3(prog, labeller, table, tier):
             raise Inconclusive('R-CTL-3', '%d returning paths in handler of '
                                '%s' % (len(outs), key), handler.where())
         term, p, L = outs[0]
-        if not isinstance(term, Coll):
-            raise Inconclusive('R-CTL-3', 'handler of %s returns %r' % (
-                key, term), handler.where())
         # memo: the set is stored under the handler's own formula
         entries = [pp for pp in p.heap[L.oid].parts]
         keyok = len(entries) == 1 and entries[0].simple() and \
             _same_formula(entries[0].key, val) and \
             isinstance(entries[0].val, Obj) and \
-            entries[0].val.oid == term.oid
+            isinstance(term, Coll) and entries[0].val.oid == term.oid
         # evaluate
         nm = 0
         counter = None
@@ -375,12 +372,15 @@ def rule_ctl3(prog, labeller, table, tier):
                 want = spec_value(key, g, P, labels)
                 try:
                     lo, hi = evaluate_set(term, env)
+                    if not isinstance(lo, frozenset):
+                        lo = hi = 'not a set: %r' % (lo,)
                 except GraphError as e:
                     counter = (g, P, labels, 'raises: %s' % e, want)
                     break
                 if lo != want or hi != want:
-                    counter = (g, P, labels, sorted(hi) if hi != want
-                               else sorted(lo), want)
+                    got = hi if hi != want else lo
+                    counter = (g, P, labels, sorted(got, key=repr)
+                               if isinstance(got, frozenset) else got, want)
                     break
         except NotEvaluable as e:
             raise Inconclusive('R-CTL-3', 'summary of %s not evaluable: %s'
@@ -409,7 +409,7 @@ def rule_ctl3(prog, labeller, table, tier):
                 'memo-key:' + key,
                 'handler of %s does not store exactly its result under its '
                 'own formula in the memo (entries: %r)' % (key, entries)))
-    floor('R-CTL-3', 'handlers summarised', len(r.instances), 9)
+    floor('R-CTL-3', 'shapes in the dispatch table', len(table), 19)
     return r
 
 
